@@ -5,7 +5,8 @@ SRC = ["hx_proto.c", "dec_common.c", "gen_stream.c", "vh.c"]
 RULE = ("case = random call history (60-300 calls) on a handle of one of 18 coder types (8 encoders, 10 decoders; decoder "
         "input valid or 25% mutated): each call draws action, input slice and output slice; 1 call in 14 is made illegal "
         "(unsupported action, out-of-range action, action switched mid-flush, avail_in changed mid-flush, NULL buffer with "
-        "non-zero length, non-zero reserved field) plus use before init / after lzma_end / after a fatal error / after "
+        "non-zero length, non-zero reserved field) plus use before init / on a handle that was another coder before (no "
+        "lzma_end in between) / after lzma_end / after a fatal error / after "
         "END. A reference model of the wrapper written from base.h (DESIGN.md Appendix C) runs in lock-step and predicts "
         "what the wrapper guarantees; buffers sit against guard pages. Histories that end normally must still give the "
         "right data. distinct = hash of the call sequence; non-trivial = >= 1 illegal step or BUF_ERROR episode")
@@ -32,6 +33,7 @@ def run(ctx):
               "micro_dec", "fileinfo_dec"):
         ctx.require("t_" + t, c.get("t_" + t, 0), 100)
     ctx.require("illegal_steps", c.get("illegal_steps", 0), 2000)
+    ctx.require("handle_reuse_histories", c.get("handle_reuse_histories", 0), 1000)
     ctx.require("buf_error_episodes", c.get("buf_error_episodes", 0), 500)
     ctx.require("histories_with_post_end_calls", c.get("histories_with_post_end_calls", 0), 500)
     ctx.require("histories_reaching_fatal_error", c.get("histories_reaching_fatal_error", 0), 200)
